@@ -77,7 +77,7 @@ def run_replay(modname, cname, args, tier, seed, no_excl=False):
     return False, "not reproduced"
 
 
-def write_replay_script(prop, modname, cname, args, no_excl=False):
+def write_replay_script(prop, modname, cname, args, no_excl=False, tier="quick"):
     d = os.path.join(VERIF, "evidence", "replays", prop)
     os.makedirs(d, exist_ok=True)
     path = os.path.join(d, cname + ".py")
@@ -89,9 +89,9 @@ def write_replay_script(prop, modname, cname, args, no_excl=False):
                 + ("os.environ['VERIF_NO_EXCLUSIONS'] = '1'\n" if no_excl else "")
                 + "from vf.replay import replay\n"
                 "ARGS = json.loads(%r)\n"
-                "r = replay(%r, %r, ARGS)\n"
+                "r = replay(%r, %r, ARGS, %r)\n"
                 "print('REPRODUCED: ' + r if r else 'NOT-REPRODUCED')\n"
-                "sys.exit(1 if r else 0)\n" % (json.dumps(args), modname, cname))
+                "sys.exit(1 if r else 0)\n" % (json.dumps(args), modname, cname, tier))
     return path
 
 
@@ -188,7 +188,7 @@ def main():
                         status = "ENGINE SELF-TEST FAILED"
                         engine_errors.append("%s: engine repair self-test refuted: %s" % (cond["name"], desc))
                     elif ok:
-                        path = write_replay_script(prop, cmod, cond["name"], args)
+                        path = write_replay_script(prop, cmod, cond["name"], args, tier=tier)
                         status = "VIOLATION (replayed)"
                         violations.append((cond["name"], args, desc, path))
                     elif ok is None:
@@ -213,7 +213,7 @@ def main():
         w = f["witness"]
         ok, desc = run_replay(w["module"], w["cond"], w["args"], tier, seed, no_excl=True)
         if ok:
-            write_replay_script(prop, w["module"], "known_" + f["id"], w["args"], no_excl=True)
+            write_replay_script(prop, w["module"], "known_" + f["id"], w["args"], no_excl=True, tier=tier)
             kf_lines.append("KNOWN-FINDING: property=%s %s [%s] witness=%s" % (prop, f["what"], f["id"], json.dumps(w["args"])))
         else:
             kf_lines.append("NOTE: known finding %s no longer reproduces on this tree (%s)" % (f["id"], desc))
@@ -272,11 +272,11 @@ def main():
     for name, args, desc, path in violations:
         print("  violation in %s: %s" % (name, desc[:500]))
         print("VIOLATION property=%s replay=%s" % (prop, path))
+    for e in engine_errors:
+        print("ENGINE-ERROR: " + e, file=sys.stderr)
     if violations:
         sys.exit(1)
     if engine_errors:
-        for e in engine_errors:
-            print("ENGINE-ERROR: " + e, file=sys.stderr)
         sys.exit(2)
     sys.exit(0)
 
